@@ -105,6 +105,8 @@ theorem createSendingAt_spec {sm : Msg} {bt : BT} {szx off nb : Nat} {m : Msg} {
   unfold createSendingAt at h
   split at h
   · cases h
+  split at h
+  · cases h
   · rename_i hoff
     split at h
     · cases h
@@ -125,6 +127,18 @@ theorem createSendingAt_spec {sm : Msg} {bt : BT} {szx off nb : Nat} {m : Msg} {
           intro hh
           exact hoff ⟨hpos, hh⟩
         · omega
+
+/-- (F39) a message without body has no block to send -/
+theorem createSendingAt_bodyless (hfix : refusesBodylessSending = true) {sm : Msg} (h : sm.body = []) (bt : BT) (szx off nb : Nat) :
+    createSendingAt sm bt szx off nb = none := by
+  unfold createSendingAt
+  rw [if_pos ⟨hfix, h⟩]
+
+/-- … and for a message with a body the test is passed -/
+theorem bodyless_test_neg {sm : Msg} (h : 0 < sm.body.length) : ¬ (refusesBodylessSending = true ∧ sm.body = []) := by
+  intro hh
+  rw [hh.2] at h
+  exact absurd h (by simp)
 
 /-! ### receiver: ETag handling and reassembly -/
 
@@ -1967,9 +1981,11 @@ theorem sender_round (cfg : Cfg) (r : Msg) (exp now : Int) (rcv : Option Entry) 
     rw [decode_blkVal true hs7 (by omega)]
     simp only [getSzx_eq_min, Nat.min_self, hsend, hbuf, hoff]
     unfold createSendingAt
+    have e0 : ¬ (refusesBodylessSending = true ∧ r.body = []) :=
+      bodyless_test_neg (Nat.lt_of_lt_of_le (Nat.mul_pos (Nat.succ_pos k) hsz) hk)
     have e1 : ¬ (sizeN cfg.szx > 0 ∧ (k + 1) * sizeN cfg.szx > r.body.length) := by omega
     have e2 : ¬ r.body.length ≥ 4294967296 := by omega
-    rw [if_neg e1, if_neg e2]
+    rw [if_neg e0, if_neg e1, if_neg e2]
     simp only [Nat.mul_div_cancel _ hsz]
     rw [encode_blkVal _ hs7 hnum]
     simp [uploadBlock, Msg.setSize, Msg.setBlock, hbuf]
@@ -2132,7 +2148,8 @@ def downloadReq (req : Msg) (s j : Nat) : Msg := (nextRequest req).setBlock .b2 
 theorem responder_round (cfg : Cfg) (resp req : Msg) (exp now : Int) (rcv : Option Entry) (app : App) (j : Nat)
     (hs : cfg.szx < 7) (hreq : isRequest req.code = true) (hresp : isPostPut resp.code = false) (hrc : resp.code > codeDELETE)
     (htok : req.tok ≠ 0) (hlive : now ≤ exp)
-    (hj : j * sizeN cfg.szx ≤ resp.body.length) (hlen : resp.body.length < 4294967296) (hnum : j < 2 ^ 20) :
+    (hj : j * sizeN cfg.szx ≤ resp.body.length) (hlen : resp.body.length < 4294967296) (hnum : j < 2 ^ 20)
+    (hne : 0 < resp.body.length) :
     handleS cfg ⟨some ⟨resp, exp⟩, rcv⟩ now (downloadReq req cfg.szx j) app =
       (if (j + 1) * sizeN cfg.szx < resp.body.length then ⟨some ⟨resp, exp⟩, rcv⟩ else ⟨none, rcv⟩,
        { reply := some (downloadBlock resp cfg.szx cfg.maxSize j) }) := by
@@ -2159,9 +2176,10 @@ theorem responder_round (cfg : Cfg) (resp req : Msg) (exp now : Int) (rcv : Opti
     rw [decode_blkVal true hs7 hnum]
     simp only [getSzx_eq_min, Nat.min_self, hsend, hbuf, hoff]
     unfold createSendingAt
+    have e0 : ¬ (refusesBodylessSending = true ∧ resp.body = []) := bodyless_test_neg hne
     have e1 : ¬ (sizeN cfg.szx > 0 ∧ j * sizeN cfg.szx > resp.body.length) := by omega
     have e2 : ¬ resp.body.length ≥ 4294967296 := by omega
-    rw [if_neg e1, if_neg e2]
+    rw [if_neg e0, if_neg e1, if_neg e2]
     simp only [Nat.mul_div_cancel _ hsz]
     rw [encode_blkVal _ hs7 hnum]
     simp [downloadBlock, Msg.setSize, Msg.setBlock, hbuf]
